@@ -1,0 +1,10 @@
+//go:build verif
+
+// Contracts for the deductive verifier in /verif (govc). Comment-only: this file adds no code.
+package loader
+
+// C18: whenever project configuration succeeds, the filesystem handed to the rest of the toolchain is the
+// root-confining wrapper around the caller's filesystem, rooted at the chosen root.
+//@ func (*ProjectConfiguration).ConfigureProject
+//@   ensures [always-wrapped] result == nil ==> tagof(pc.Fs) == typeid("*syslutil.ChrootFs") && valof(pc.Fs) != 0
+//@   ensures [wraps-given-fs] result == nil ==> as("*syslutil.ChrootFs", pc.Fs).fs == fs
